@@ -1,9 +1,13 @@
 package recvwrite
 
 import (
+	"bytes"
 	"context"
+	"io"
 	"math"
 	"math/rand"
+	"net/http"
+	"strconv"
 	"strings"
 	"sync"
 	"testing"
@@ -246,6 +250,9 @@ func runV2Case(t *testing.T, e *env, peer *v2Peer, c vt.Case) vt.Event {
 		samples, hists, exs := [][]int{}, [][]int{}, []any{}
 		for i := r.Intn(3); i > 0; i-- {
 			s := writev2.Sample{Timestamp: tsBase + int64(r.Intn(100000)), Value: half(r, 100000)}
+			if r.Intn(3) == 0 {
+				s.StartTimestamp = s.Timestamp - int64(r.Intn(1000)) // v1 cannot carry it: must simply be dropped
+			}
 			ts.Samples = append(ts.Samples, s)
 			samples = append(samples, []int{int(s.Timestamp - tsBase), f2i(s.Value)})
 		}
@@ -258,6 +265,10 @@ func runV2Case(t *testing.T, e *env, peer *v2Peer, c vt.Case) vt.Event {
 			x := writev2.Exemplar{LabelsRefs: u32s(ex), Value: half(r, 1000), Timestamp: tsBase + int64(r.Intn(100000))}
 			ts.Exemplars = append(ts.Exemplars, x)
 			exs = append(exs, map[string]any{"lrefs": vt.List(ex), "v": f2i(x.Value), "t": int(x.Timestamp - tsBase)})
+		}
+		if nsym > 0 && r.Intn(3) == 0 {
+			// series metadata (type, help, unit through the symbol table): not ingested by thanos, must not disturb
+			ts.Metadata = writev2.Metadata{Type: writev2.Metadata_MetricType(r.Intn(4)), HelpRef: uint32(r.Intn(nsym)), UnitRef: uint32(r.Intn(nsym))}
 		}
 		req.Timeseries = append(req.Timeseries, ts)
 		inSeries = append(inSeries, map[string]any{"lrefs": vt.List(sm["lrefs"]), "samples": samples, "hists": hists, "exemplars": exs})
@@ -277,14 +288,12 @@ func runV2Case(t *testing.T, e *env, peer *v2Peer, c vt.Case) vt.Event {
 	peer.mu.Unlock()
 	panicsBefore := e.plog.Count()
 	cl := newClient()
-	st, _, perr := post(context.Background(), cl, e.url+"/api/v1/receive", s2.EncodeSnappy(nil, raw), map[string]string{
-		"Content-Type":                      "application/x-protobuf;proto=io.prometheus.write.v2.Request",
-		"Content-Encoding":                  "snappy",
-		"X-Prometheus-Remote-Write-Version": "2.0.0",
-	})
+	st, written, perr := postV2(cl, e.url+"/api/v1/receive", s2.EncodeSnappy(nil, raw))
 	cl.CloseIdleConnections()
 	panicked := e.plog.Count() > panicsBefore
-	got := map[string]any{"kind": "", "status": st, "series": []any{}, "msg": ""}
+	// written: the X-Prometheus-Remote-Write-{Samples,Histograms,Exemplars}-Written response headers
+	// (-1 = header absent); sent: what the request carried. Model conformance only (DRIFT).
+	got := map[string]any{"kind": "", "status": st, "series": []any{}, "msg": "", "written": written}
 	switch {
 	case panicked || perr != nil:
 		got["kind"] = "panic"
@@ -327,8 +336,46 @@ func runV2Case(t *testing.T, e *env, peer *v2Peer, c vt.Case) vt.Event {
 	return ev
 }
 
+// postV2 sends a remote-write 2.0 request and returns the status and the three "written" headers.
+func postV2(cl *http.Client, url string, body []byte) (int, []int, error) {
+	req, err := http.NewRequest(http.MethodPost, url, bytes.NewReader(body))
+	if err != nil {
+		return 0, []int{-1, -1, -1}, err
+	}
+	req.Header.Set("Content-Type", "application/x-protobuf;proto=io.prometheus.write.v2.Request")
+	req.Header.Set("Content-Encoding", "snappy")
+	req.Header.Set("X-Prometheus-Remote-Write-Version", "2.0.0")
+	resp, err := cl.Do(req)
+	if err != nil {
+		return 0, []int{-1, -1, -1}, err
+	}
+	defer resp.Body.Close()
+	_, _ = io.Copy(io.Discard, io.LimitReader(resp.Body, 4096))
+	w := []int{-1, -1, -1}
+	for i, h := range []string{"X-Prometheus-Remote-Write-Samples-Written", "X-Prometheus-Remote-Write-Histograms-Written", "X-Prometheus-Remote-Write-Exemplars-Written"} {
+		if v := resp.Header.Get(h); v != "" {
+			if n, err := strconv.Atoi(v); err == nil {
+				w[i] = n
+			}
+		}
+	}
+	return resp.StatusCode, w, nil
+}
+
+// symbol-table sizes around the varint boundaries of the packed references (1 byte up to 127, 2 bytes
+// up to 16383) and beyond
+var tableSizes = []int{126, 127, 128, 129, 255, 256, 300}
+var hugeTableSizes = []int{16383, 16384, 16385}
+
 func randomV2Case(rnd *rand.Rand) vt.Case {
 	nsym := rnd.Intn(41)
+	big := rnd.Intn(8) == 0
+	if big {
+		nsym = tableSizes[rnd.Intn(len(tableSizes))]
+		if vt.Thorough() && rnd.Intn(12) == 0 {
+			nsym = hugeTableSizes[rnd.Intn(len(hugeTableSizes))]
+		}
+	}
 	nser := 1 + rnd.Intn(6)
 	mode := rnd.Intn(4) // 0,1: all refs valid; 2: a few bad refs; 3: odd lengths too
 	ref := func() int64 {
@@ -341,6 +388,9 @@ func randomV2Case(rnd *rand.Rand) vt.Case {
 			default:
 				return -1 - int64(rnd.Intn(3)) // uint32: 4294967295, ...
 			}
+		}
+		if big && rnd.Intn(2) == 0 {
+			return int64(nsym - 1 - rnd.Intn(3)) // the last entries of a big table: multi-byte varints
 		}
 		return int64(rnd.Intn(nsym))
 	}
